@@ -98,6 +98,11 @@ pub trait Target: Sync {
     fn pre_state(&self, ent: &str) -> (Vec<u64>, Vec<Value>);
 
     fn observe(&self, ent: &str) -> FinalObs;
+
+    /// The entities live in a WalStore (revisions, no audit log).
+    fn is_wal(&self) -> bool {
+        false
+    }
 }
 
 pub fn actor_of(thr: u32) -> Actor {
@@ -207,7 +212,9 @@ impl CtrTarget {
             None => (op, 0),
         };
         Some(match name {
-            "ok" => CtrDetails::Add { id, n: (thr * 10 + idx) as i64 },
+            "ok" | "okc" => {
+                CtrDetails::Add { id, n: (thr * 10 + idx) as i64 }
+            }
             "noop" => CtrDetails::Noop { id },
             "reject" => CtrDetails::Reject { id },
             "presave_fail" => CtrDetails::PreFail { id },
@@ -416,13 +423,25 @@ fn reset_ent(
     target: &dyn Target, spec: &EntSpec, snapver: u64, cache_ver: u64,
 ) -> Value {
     let (keys, hist) = target.pre_state(&spec.name);
+    if target.is_wal() {
+        // snapshot at revision `snapver`, then one wal-N key per revision
+        return json!({
+            "e": spec.name, "exists": true, "wal": true, "keys": keys,
+            "next": snapver + keys.len() as u64,
+            "pre": hist, "snapver": snapver, "cachever": cache_ver,
+            "cached": cache_ver > 0,
+        })
+    }
     json!({
         "e": spec.name,
         "exists": !keys.is_empty(),
+        "wal": false,
+        "keys": keys,
         "next": keys.len(),
         "pre": hist,
         "snapver": snapver,
         "cachever": cache_ver,
+        "cached": cache_ver > 0,
     })
 }
 
@@ -654,6 +673,20 @@ pub fn run(input: &Path, output: &Path, work: &Path, raw: bool) {
                 crate::ca::run_behaviour(
                     &dir, beh, &ents, &mut out, raw_out.as_mut()
                 );
+            }
+            "wal" => {
+                match crate::walctr::build(&dir, beh, &ents) {
+                    Ok((target, init, _)) => {
+                        run_on_target(
+                            &target, beh, &ents, &init, &mut out,
+                            raw_out.as_mut()
+                        );
+                    }
+                    Err(e) => {
+                        eprintln!("set-up of behaviour {n} failed: {e}");
+                        std::process::exit(2);
+                    }
+                }
             }
             _ => {
                 match ctr_target(&dir, beh, &ents) {
